@@ -243,6 +243,7 @@ func attTerm(slot, idx uint64, bbr []byte, se uint64, sr []byte, te uint64, tr [
 type capS struct{ b *base }
 
 func (c capS) Sign(ctx context.Context, data []byte) (e2types.Signature, error) {
+	defer leaveCall(ctx, enterCall(ctx))
 	if c.b.d.Fail || singleFails(ctx, c.b.d.Key) {
 		return nil, errCannotSign
 	}
@@ -255,6 +256,7 @@ func (c capS) Sign(ctx context.Context, data []byte) (e2types.Signature, error) 
 type capP struct{ b *base }
 
 func (c capP) SignGeneric(ctx context.Context, data []byte, domain []byte) (e2types.Signature, error) {
+	defer leaveCall(ctx, enterCall(ctx))
 	if c.b.d.Fail || singleFails(ctx, c.b.d.Key) {
 		return nil, errCannotSign
 	}
@@ -265,6 +267,7 @@ func (c capP) SignGeneric(ctx context.Context, data []byte, domain []byte) (e2ty
 }
 
 func (c capP) SignBeaconProposal(ctx context.Context, slot uint64, proposerIndex uint64, parentRoot []byte, stateRoot []byte, bodyRoot []byte, domain []byte) (e2types.Signature, error) {
+	defer leaveCall(ctx, enterCall(ctx))
 	if c.b.d.Fail || singleFails(ctx, c.b.d.Key) {
 		return nil, errCannotSign
 	}
@@ -276,6 +279,7 @@ func (c capP) SignBeaconProposal(ctx context.Context, slot uint64, proposerIndex
 }
 
 func (c capP) SignBeaconAttestation(ctx context.Context, slot uint64, committeeIndex uint64, blockRoot []byte, sourceEpoch uint64, sourceRoot []byte, targetEpoch uint64, targetRoot []byte, domain []byte) (e2types.Signature, error) {
+	defer leaveCall(ctx, enterCall(ctx))
 	if c.b.d.Fail || singleFails(ctx, c.b.d.Key) {
 		return nil, errCannotSign
 	}
@@ -289,6 +293,7 @@ func (c capP) SignBeaconAttestation(ctx context.Context, slot uint64, committeeI
 type capM struct{ b *base }
 
 func (c capM) SignBeaconAttestations(ctx context.Context, slot uint64, accounts []e2wtypes.Account, committeeIndices []uint64, blockRoot []byte, sourceEpoch uint64, sourceRoot []byte, targetEpoch uint64, targetRoot []byte, domain []byte) ([]e2types.Signature, error) {
+	defer leaveCall(ctx, enterCall(ctx))
 	if len(accounts) != len(committeeIndices) {
 		return nil, errors.New("mock: accounts and committee indices differ in number")
 	}
@@ -317,6 +322,7 @@ func (c capM) SignBeaconAttestations(ctx context.Context, slot uint64, accounts 
 }
 
 func (c capM) SignGenericMulti(ctx context.Context, accounts []e2wtypes.Account, data [][]byte, domain []byte) ([]e2types.Signature, error) {
+	defer leaveCall(ctx, enterCall(ctx))
 	if len(accounts) != len(data) {
 		return nil, errors.New("mock: accounts and data differ in number")
 	}
@@ -536,6 +542,14 @@ type stepEnv struct {
 	onceDone   map[uint64]bool
 	multiCalls int            // multi-signature calls made for this request so far
 	onceCall   map[uint64]int // the call that left the member out
+	// overlapping requests (see overlap.go): the parkAt-th account call made for this request waits,
+	// before looking at its arguments ("before") or with its answer ready ("after"), until the
+	// harness lets it go on -- which it does when other requests have been made meanwhile
+	park      string
+	parkAt    int
+	acctCalls int
+	entered   chan struct{} // the call has arrived at its waiting point (buffered, one token)
+	release   chan struct{} // closed by the harness
 }
 
 func keySet(keys []uint64) map[uint64]bool {
